@@ -23,7 +23,7 @@ def plan(tier):
               (tm.Cfg('sim-n4-useful', [1, 1, 1, 1], [1], max_round=3, max_height=3, nbyz=1, budget=6, own_first=False,
                       useful_only=True), n, d + 40),
               (tm.Cfg('sim-n4-crash', [1, 1, 1, 1], [4], max_round=2, max_height=2, nbyz=1, budget=4, crashes=3,
-                      crash_set=[1, 2, 3], own_first=False, useful_only=True), n, d + 40)]
+                      crash_set=[1, 2, 3], own_first=False, useful_only=True, torn=True), n, d + 40)]
     # validator-set change between heights 1 and 2 (power update of an honest validator; partial synchrony so that heights finish)
     p.sims.append((tm.Cfg('sim-n4-power-update', [1, 1, 1, 1], [4], max_round=2, max_height=2, nbyz=1, budget=4, own_first=False,
                           useful_only=True, sync=True, next_power={2: [2, 1, 1, 1]}), n, d + 90))
